@@ -174,6 +174,15 @@ theorem getslice_tuple_to (l : List PyVal) (k : Nat) :
   · rw [Nat.min_eq_left h]
   · rw [Nat.min_eq_right (by omega), List.take_of_length_le (by omega), List.take_of_length_le (by omega)]
 
+/-- `l[:k]` -/
+theorem getslice_list_to (l : List PyVal) (k : Nat) :
+    getslice (.list l) .none (.int k) = .ok (.list (l.take k)) := by
+  simp only [getslice, clampBound_nat, clampBound_none, ok_bind, pure_ok, sliceList, List.drop_zero]
+  congr 2
+  by_cases h : k ≤ l.length
+  · rw [Nat.min_eq_left h]
+  · rw [Nat.min_eq_right (by omega), List.take_of_length_le (by omega), List.take_of_length_le (by omega)]
+
 /-- `[x] * n` -/
 theorem mul_singleton (x : PyVal) (n : Int) : mul (.list [x]) (.int n) = .ok (.list (List.replicate n.toNat x)) := by
   simp only [mul, asInt, pure_ok]
@@ -285,4 +294,18 @@ theorem forIn_append_ok {α : Type} (l : List PyVal) (init : List α) (f : PyVal
     simp only [List.foldl_cons, List.flatMap_cons]
     rw [ih (init ++ k x) (fun y hy s => h y (List.mem_cons_of_mem _ hy) s), List.append_assoc]
 
+end PyRt
+
+namespace PyRt
+@[simp] theorem truthy_obj (c fs) : truthy (.obj c fs) = true := by rfl
+@[simp] theorem match_groups_match (gs) : match_groups (.obj "re.Match" [("groups", .tuple gs)]) = .ok (.tuple gs) := by rfl
+@[simp] theorem list_extend_list_tuple (l gs) : list_extend (.list l) (.tuple gs) = .ok (.list (l ++ gs)) := by rfl
+@[simp] theorem list_extend_list_list (l gs) : list_extend (.list l) (.list gs) = .ok (.list (l ++ gs)) := by rfl
+end PyRt
+
+namespace PyRt
+@[simp] theorem className_str (s) : className (.str s) = "str" := by rfl
+@[simp] theorem className_int (i) : className (.int i) = "int" := by rfl
+@[simp] theorem className_list (l) : className (.list l) = "list" := by rfl
+@[simp] theorem className_tuple (l) : className (.tuple l) = "tuple" := by rfl
 end PyRt
